@@ -103,7 +103,7 @@ def invalid_scenarios():
     from ..explore_r import Scenario, S, mkcfg, bl, sl
     from ..scenarios_r import CL
     menu = [[], [bl(0, 101)], [sl(0, 99)], [bl(0, 99)], [CL], [["RESUBMIT"]], [["RESUBMIT", "live"]], [["SPOOF"]], [["CANCEL_OTHER"]], [["TWICE"]],
-            [bl(0, 100), ["RESUBMIT"]]]
+            [bl(0, 100), ["RESUBMIT"]], [bl(0, 100), ["SPOOF"]], [["SPOOF"], sl(0, 100)], [bl(0, 98), ["CANCEL_OTHER"]], [["CANCEL_OTHER"], bl(0, 98)]]
     ags = [dict(name="A0", menu=menu, program=[1, 3, 0], markets=["M0"]), dict(name="A1", menu=menu, program=[2, 0, 3], markets=["M0"]),
            dict(name="H0", cls="ScriptedHFAgent", menu=menu, program=[0, 3], markets=["M0"])]
     return {"invalid_programs": Scenario("invalid_programs", mkcfg(
